@@ -107,6 +107,53 @@ theorem forEach_err {f : Obj → Res} {xs : List Obj} {e : Rej} (h : forEach f x
       cases h
       exact ⟨x, List.mem_cons_self, h1⟩
 
+/-- a loop raises `e` iff some element raises it and everything before it passed -/
+theorem forEach_err_iff {f : Obj → Res} {xs : List Obj} {e : Rej} :
+    forEach f xs = .error e ↔
+      ∃ pre x post, xs = pre ++ x :: post ∧ (∀ y ∈ pre, f y = .ok ()) ∧ f x = .error e := by
+  induction xs with
+  | nil => simp [forEach]
+  | cons a as ih =>
+    simp only [forEach]
+    rcases res_cases (f a) with h | ⟨e', h⟩
+    · rw [h]
+      simp only
+      rw [ih]
+      constructor
+      · rintro ⟨pre, x, post, rfl, h1, h2⟩
+        refine ⟨a :: pre, x, post, rfl, ?_, h2⟩
+        intro y hy
+        rcases List.mem_cons.1 hy with rfl | hy
+        · exact h
+        · exact h1 y hy
+      · rintro ⟨pre, x, post, he, h1, h2⟩
+        cases pre with
+        | nil =>
+          simp only [List.nil_append, List.cons.injEq] at he
+          obtain ⟨rfl, rfl⟩ := he
+          rw [h] at h2; cases h2
+        | cons b pre =>
+          simp only [List.cons_append, List.cons.injEq] at he
+          obtain ⟨rfl, rfl⟩ := he
+          exact ⟨pre, x, post, rfl, fun y hy => h1 y (List.mem_cons_of_mem _ hy), h2⟩
+    · rw [h]
+      simp only [Except.error.injEq]
+      constructor
+      · rintro rfl
+        exact ⟨[], a, as, rfl, by simp, h⟩
+      · rintro ⟨pre, x, post, he, h1, h2⟩
+        cases pre with
+        | nil =>
+          simp only [List.nil_append, List.cons.injEq] at he
+          obtain ⟨rfl, rfl⟩ := he
+          rw [h] at h2
+          simpa using h2
+        | cons b pre =>
+          simp only [List.cons_append, List.cons.injEq] at he
+          obtain ⟨rfl, rfl⟩ := he
+          have := h1 _ List.mem_cons_self
+          rw [h] at this; cases this
+
 /-! ### dedup -/
 
 theorem mem_dedup {x : Obj} {l : List Obj} : x ∈ dedup l ↔ x ∈ l := by
